@@ -570,13 +570,6 @@ impl Exec {
 		let idx = self.step_idx;
 		self.step_idx += 1;
 		let r = self.step_inner(step, stats, false);
-		if let Outcome::Ok = r {
-			if self.prop == Prop::C04 && self.twin.is_some() && !matches!(step, Step::CloneTwin) {
-				if let Some(v) = self.twin_step(step, idx) {
-					return v;
-				}
-			}
-		}
 		r
 	}
 
@@ -730,10 +723,7 @@ impl Exec {
 					}
 					Caught::Injected => unreachable!(),
 				}
-				if armed04 && self.text() != &pre[..] {
-					let t = self.text().to_vec();
-					return violation(Prop::C04, "conversion_changed_text", idx, None, &name, "a conversion changed the text".into(), Some(&pre), Some(&pre), Some(&t), ctx_class(kind, &pre), String::new());
-				}
+				// (whether a conversion preserves the text is C13, not C04)
 				if let Some(v) = self.wf(idx, &name, &pre, ctx_class(kind, &pre), String::new()) {
 					return v;
 				}
@@ -760,10 +750,12 @@ impl Exec {
 				}
 			}
 			Step::CloneTwin => {
-				if armed04 {
-					self.twin = self.owner.clone();
+				// the history continues on a clone (exact capacity, new allocation); C04 states
+				// nothing about two copies agreeing, so no comparison is made
+				if let Some(c) = self.owner.clone() {
+					self.owner = Some(c);
 					if !quiet {
-						stats.hit("fault_clone_twin");
+						stats.hit("fault_continue_on_clone");
 					}
 				}
 				Outcome::Ok
